@@ -231,7 +231,8 @@ CHECKS = {
                 'consistent object is THE realisation of its configuration (conc (cfg_of s) = s), so histories ending in '
                 'the same configuration are indistinguishable now and after any further calls; simulate() is C09\'s '
                 'simulate for the model of the reported administration; a copy has the same configuration with '
-                'sensitivities off. Tied to /repo on every run: all call sequences up to length 2 (thorough: 3) over '
+                'sensitivities off; the calls applying a net configuration (administration, regimen, outputs) to a fresh '
+                'model reach exactly that configuration, so a history ending in it equals the fresh model with it. Tied to /repo on every run: all call sequences up to length 2 (thorough: 3) over '
                 'an 11-call alphabet and random histories up to length 12 on library and random SBML models, every '
                 'observation after every call compared exactly (vm_compute) with the model; directly: a fresh model '
                 'with only the net configuration answers identically (names, counts, regimen, simulated arrays, '
@@ -349,8 +350,9 @@ CHECKS = {
                 'vm_compute); noise across outputs / times / samples is not shared and uncorrelated.',
         'note': 'Partial: that distinct positions of a NumPy stream and streams of distinct seeds are independent is '
                 'NumPy\'s contract (assumed); independence is checked statistically (|r| < 6/sqrt(N)), not proved. Trusted: '
-                'Coq kernel, stdlib (no axioms); the plan of PopulationPredictiveModel and of the pints priors is checked '
-                'for determinism only.',
+                'Coq kernel, stdlib (no axioms); PredictiveModel and PopulationPredictiveModel are replayed against their '
+                'plans, the prior / posterior / averaged predictive models and the pints priors are checked for '
+                'determinism, advancement and independence only.',
         'technique': 'Coq proof (disjointness of consecutively consumed stream blocks) + primitive-stream replay + '
                      'determinism / advancement checks on every entry point',
     },
